@@ -199,8 +199,8 @@ func (se *SpecEnv) eval(e SExpr) (Value, types.Type) {
 			if t == nil {
 				se.fail(e, "unknown type %q", v.Type)
 			}
-			se.ex.vc.nfresh++
-			bv := Sym(fmt.Sprintf("%s!b%d", sanitize(v.Name), se.ex.vc.nfresh), vc.SortOf(t))
+			// canonical bound-variable names (name + nesting depth): equal formulas print identically
+			bv := Sym(fmt.Sprintf("%s!b%d", sanitize(v.Name), vc.quantDepth+1), vc.SortOf(t))
 			bound = append(bound, bv)
 			n.names[v.Name] = specBinding{bv, t}
 			// typing guards for bound variables: integer ranges
@@ -291,11 +291,10 @@ func (se *SpecEnv) binary(x *SBin) (Value, types.Type) {
 		switch u := types.Unalias(mt).Underlying().(type) {
 		case *types.Map:
 			kk := se.materialize(k, Sym("x", vc.SortOf(u.Key())), kt)
-			return And(Not(Eq(mterm, IntLit(0))), Select(se.ex.mapDom(se.cur, u, mterm), kk)), boolT
+			return Select(se.ex.mapDom(se.cur, u, mterm), kk), boolT
 		case *types.Slice:
 			kk := se.materialize(k, Sym("x", vc.SortOf(u.Elem())), kt)
-			vc.nfresh++
-			iq := Sym(fmt.Sprintf("i!b%d", vc.nfresh), vc.IntSort())
+			iq := Sym(fmt.Sprintf("in.i!b%d", vc.quantDepth+1), vc.IntSort())
 			it := types.Typ[types.Int]
 			arr := se.ex.sliceElems(se.cur, u.Elem(), mterm)
 			return Exists([]*Term{iq}, And(vc.Cmp("<=", vc.IntConst(0), iq, it), vc.Cmp("<", iq, vc.SliceLen(mterm), it),
@@ -559,8 +558,9 @@ func (se *SpecEnv) index(x *SIndex) (Value, types.Type) {
 	switch u := types.Unalias(ct).Underlying().(type) {
 	case *types.Map:
 		k := se.materialize(iv, Sym("x", vc.SortOf(u.Key())), it)
-		has := And(Not(Eq(c, IntLit(0))), Select(se.ex.mapDom(se.cur, u, c), k))
-		return Ite(has, Select(se.ex.mapVal(se.cur, u, c), k), vc.Zero(u.Elem())), u.Elem()
+		// the model invariant of maps (keys outside the domain, and every key of the nil map, read as zero)
+		// makes the plain read the Go semantics of m[k]
+		return Select(se.ex.mapVal(se.cur, u, c), k), u.Elem()
 	case *types.Slice:
 		i := se.materialize(iv, Sym("x", vc.IntSort()), it)
 		arr := se.ex.sliceElems(se.cur, u.Elem(), c)
@@ -598,6 +598,14 @@ func (se *SpecEnv) callExpr(x *SCall) (Value, types.Type) {
 		case "fresh":
 			v, _ := se.evalTerm(x.Args[0])
 			return And(Not(Eq(v, IntLit(0))), Not(Select(se.ex.alive(se.old), v)), Select(se.ex.alive(se.cur), v)), boolT
+		case "newobj":
+			// allocated during this call (not yet allocated in the old state); for slices: the backing array
+			v, t := se.evalTerm(x.Args[0])
+			if _, isSlice := types.Unalias(t).Underlying().(*types.Slice); isSlice {
+				p := vc.SlicePtr(v)
+				return Or(Eq(p, IntLit(0)), Not(Select(se.ex.alive(se.old), p))), boolT
+			}
+			return Or(Eq(v, IntLit(0)), Not(Select(se.ex.alive(se.old), v))), boolT
 		case "alive":
 			v, _ := se.evalTerm(x.Args[0])
 			return Select(se.ex.alive(se.cur), v), boolT
